@@ -38,15 +38,46 @@ def is_known(p, sem, got):
     return None
 
 
+def operator_grid():
+    """every unary and binary operator on every pair of value types (and a few value choices per type):
+    the dispatch table of the evaluator against Sem's"""
+    S = lambda x: ("str", x)  # noqa
+    N = lambda z: ("num", z)  # noqa
+    vals = {
+        "null": [("null",)], "bool": [("bool", True), ("bool", False)], "num": [N(0), N(3), N(-2), N(12)],
+        "str": [S(""), S("a"), S("b")], "arr": [("arr", []), ("arr", [N(1)]), ("arr", [N(1), N(2)]), ("arr", [S("a")])],
+        "obj": [("obj", [], [], []), ("obj", [], [], [(S("a"), ":", False, N(1))]), ("obj", [], [], [(S("b"), "::", False, N(2))])],
+        "fun": [("fun", [("q", None)], ("var", "q"))],
+    }
+    progs = []
+    for op in g.BINOPS:
+        for ta, va in vals.items():
+            for tb, vb in vals.items():
+                pairs = [(a, b) for a in va for b in vb]
+                if ta == tb and ta in ("num", "str", "arr", "obj", "bool"):
+                    use = pairs                       # same-type pairs: every value combination
+                else:
+                    use = pairs[:2]
+                for a, b in use:
+                    progs.append(("bin", op, a, b))
+    for op in g.UNOPS:
+        for va in vals.values():
+            for a in va:
+                progs.append(("un", op, a))
+    # results that are functions/objects-with-functions do not manifest: wrap in std.type where needed
+    return [("arr", [("type", p), ("if", ("bin", "==", ("type", p), ("str", "function")), ("null",), p)]) for p in progs]
+
+
 def generate(run, n):
     pg = g.ProgGen(run.rng.fork("progs"))
-    progs = [pg.program() for _ in range(n)]
+    progs = operator_grid() + [pg.program() for _ in range(n)]
     for k, v in pg.stats.items():
         run.count("gen:" + k, v)
     return progs
 
 
-def correspond(run, binary, progs):
+def correspond(run, binary, progs, light=0):
+    """the first [light] programs (operator grid) run in the two parser configurations only"""
     failures, skipped = [], 0
     sem = core.coq_eval(g.SEM_IMPORTS, [f"run {FUEL} {g.to_coq(p)}" for p in progs], timeout=1200)
     run.log("Sem evaluated")
@@ -58,8 +89,11 @@ def correspond(run, binary, progs):
     plan = []
     rr = run.rng.fork("configs")
     for i, p in enumerate(progs):
-        chosen = [(False, False, "snippet")] + [combos[(i * 5 + j * 7 + rr.below(len(combos))) % len(combos)]
-                                                for j in range(5)]
+        if i < light:
+            chosen = [(False, False, "snippet"), (True, False, "snippet")]
+        else:
+            chosen = [(False, False, "snippet")] + [combos[(i * 5 + j * 7 + rr.below(len(combos))) % len(combos)]
+                                                    for j in range(5)]
         for (leg, named, emb) in chosen:
             rq[leg].append(make_request(p, emb, named))
             plan.append((i, leg, named, emb, len(rq[leg]) - 1))
@@ -196,14 +230,14 @@ def check(run, terrs):
         run.obligation("harness.build", False, err)
         return core.conclude(run, False, err, [], [])
     n = 12000 if run.tier == "thorough" else 1000
-    failures = correspond(run, binary, generate(run, n))
+    failures = correspond(run, binary, generate(run, n), light=len(operator_grid()))
     f2, diffs = argbind_correspond(run, binary)
     failures += f2
     run.trusted = TRUSTED
     run.assumptions = ASSUMPTIONS
 
     def search():
-        return correspond(run, binary, generate(run, 6000))
+        return correspond(run, binary, generate(run, 6000), light=len(operator_grid()))
 
     return core.conclude(run, proofs_ok, detail, failures, diffs, search=search if run.tier == "quick" else None,
                          level="proof", rule=RULE)
